@@ -707,8 +707,13 @@ def _incdec(delta):
     return fn
 
 
+PAGE_ASSUME = True  # C06's page-edge classes switch this off: the two cores are compared with each other there, not with this spec
+
+
 def _page_assume(st):
     # page-relative forms: the next instruction lies in the same 64 KiB page
+    if not PAGE_ASSUME:
+        return
     st.assume.append(z3.ULT(zx(z3.Extract(15, 0, st.pc), 32) + st.ilen, bv(0x10000, 32)))
 
 
